@@ -30,6 +30,10 @@ def _prune(g):
 
 def fold(v):
     """constant folding on a symbolic value: Not / Eq / Ne / BitAnd / BitOr over c:N operands"""
+    # the discriminant of an aggregate built on this path
+    md = re.fullmatch(r"discr\((?:std::option::Option|std::result::Result)::(None|Some|Ok|Err)\{.*\}\)", v)
+    if md:
+        return "c:%d" % {"None": 0, "Some": 1, "Ok": 0, "Err": 1}[md.group(1)]
     prev = None
     while prev != v:
         prev = v
